@@ -763,11 +763,12 @@ Definition tt := retable %(sp)s %(fp)s %(cp)s %(dp)s t0.
 Definition v : str := %(v)s.
 Definition e : ec := %(ec)s.
 Definition lenc (l : level) := leaf_enc v l e.
-Definition check (t : tables) (c : list op * list N) : option nat := run_check t e lenc true init_rstate (fst c) (snd c) 0.
-Fixpoint failing (t : tables) (n : nat) (l : list (list op * list N)) : list nat :=
+Definition check (t : tables) (x : bool) (c : list op * list N) : option nat :=
+  run_check t e lenc x init_rstate (fst c) (snd c) 0.
+Fixpoint failing (t : tables) (x : bool) (n : nat) (l : list (list op * list N)) : list nat :=
   match l with
   | [] => []
-  | c :: r => (match check t c with Some k => [n; k] | None => [] end) ++ failing t (S n) r
+  | c :: r => (match check t x c with Some k => [n; k] | None => [] end) ++ failing t x (S n) r
   end.
 '''
 
@@ -822,10 +823,13 @@ def case_text(ops, obs):
     return '([%s],\n [%s])' % (';\n  '.join(coq_op(o) for o in ops), '; '.join('%d%%N' % hash_str(o) for o in obs))
 
 
-def run_model(run, version, cases, tag, per_file=40, component='heap'):
-    """cases: list of (ops, observations).  Replays every history in the Coq model and records a
-    disagreement for each history whose (outcome, result, dump) differs at some step.
-    Returns (number of histories evaluated, number of steps evaluated, list of (case index, step))."""
+def run_model(run, version, cases, tag, per_file=40, component='heap', plain_every=0):
+    """cases: list of (ops, observations).  Replays every history in the Coq model (exotic = true, i.e.
+    hl7apy's behaviour) and compares (outcome, result, dump) hashes per step inside Coq.  With
+    plain_every = k > 0 every k-th shard is also replayed with exotic = false: agreement shows that no
+    history took one of the two exotic paths (the hypothesis hist_plain of the partial theorems).
+    Returns (histories evaluated, steps evaluated, [(case index, step)] that differ, [(case, step)]
+    where the plain replay differs, histories replayed plain)."""
     usable = [(i, c) for i, c in enumerate(cases) if in_model_domain(c[0], c[1])]
     shards = shard(usable, per_file)
     files = []
@@ -833,14 +837,17 @@ def run_model(run, version, cases, tag, per_file=40, component='heap'):
         L = [prelude(version, seg_names_of([c for _, c in sh])), 'Definition cases : list (list op * list N) := [']
         L.append(';\n'.join(case_text(ops, obs) for _, (ops, obs) in sh))
         L.append('].')
-        L.append('Eval vm_compute in (let t := tt in failing t 0 cases).')
+        L.append('Eval vm_compute in (let t := tt in failing t true 0 cases).')
+        if plain_every and k % plain_every == 0:
+            L.append('Eval vm_compute in (let t := tt in failing t false 0 cases).')
         files.append(('%s_%d_%d' % (tag, os.getpid(), k), '\n'.join(L) + '\n'))
     results = coq_eval_many(files, timeout=1500)
-    evaluated = steps = 0
-    bad = []
-    for sh, (rc, out) in zip(shards, results):
+    evaluated = steps = nplain = 0
+    bad, bad_plain = [], []
+    for k, (sh, (rc, out)) in enumerate(zip(shards, results)):
         lists = parse_nat_lists(out)
-        if rc != 0 or len(lists) != 1:
+        want = 2 if (plain_every and k % plain_every == 0) else 1
+        if rc != 0 or len(lists) != want:
             run.disagree(component, why='case file did not evaluate', output=out[-1500:])
             continue
         evaluated += len(sh)
@@ -849,7 +856,12 @@ def run_model(run, version, cases, tag, per_file=40, component='heap'):
         for j in range(0, len(fl), 2):
             idx, step = sh[fl[j]][0], fl[j + 1]
             bad.append((idx, step))
-    return evaluated, steps, bad
+        if want == 2:
+            nplain += len(sh)
+            fl = lists[1]
+            for j in range(0, len(fl), 2):
+                bad_plain.append((sh[fl[j]][0], fl[j + 1]))
+    return evaluated, steps, bad, bad_plain, nplain
 
 
 def model_observations(version, ops, upto=None):
